@@ -363,6 +363,16 @@ def mk_grid_rotation_compose(H, W):
 
 
 def obligations(tier):
+    obs = _obligations(tier)
+    # the unbounded integer laws are re-decided by a second solver: every verification condition of the first paths is exported as SMT-LIB2
+    # and handed to the cvc5 binary (quick: 12 per obligation, thorough: 200)
+    for o in obs:
+        if not o.name.startswith(('grid-rotation', 'area-positions')):
+            o.cross_check = 12 if tier == 'quick' else 200
+    return obs
+
+
+def _obligations(tier):
     obs = [
         Obligation('orientation-group', h_orientation_group),
         Obligation('orientation-action', h_orientation_action),
